@@ -464,6 +464,7 @@ func TestC12(t *testing.T) {
 			"whitespace is only varied where the grammar has WS+/WS*; 'not in' keeps exactly one whitespace character",
 		},
 		Gen: genC12, Run: runC12,
+		CaseTimeout: 5 * time.Minute,
 		QuickChecks: 2500, ThoroughFactor: 15,
 		ExhaustiveQuick: exhaustiveC12(4),
 		Exhaustive:      exhaustiveC12(5),
